@@ -215,6 +215,8 @@ def run_batch(ctx, kind, seed, muts, aux=(), label="", expect_err_on_truncate=Fa
             for k in ("ok", "none", "err", "panic"):
                 st.classes["%s:outcome-%s" % (entry, k)] += v[k]
             st.maximum("cpu_us", v["max_cpu_us"])
+            if v["max_cpu_us"] > 1_000_000:
+                ctx.note("slowest case of a batch took more than 1 s of CPU: %s %s (%s, %d bytes): %.1f s" % (ctx.variant, kind, label, len(seed), v["max_cpu_us"] / 1e6))
             st.maximum("peak_bytes", v["max_peak"])
             st.maximum("max_request_bytes", v["max_req"])
             for s in v["sites"]:
